@@ -6,21 +6,37 @@ from .. import common as C
 MANIFEST = dict(
     text="Lean 4 theorems over an executable model of the gw_backend.c pool bookkeeping (gw_host_get per "
          "balance mode, gw_host_assign/reset, gw_proc_load_inc/release, gw_backend_close, gw_connection_close, "
-         "gw_reconnect, gw_write_error / gw_recv_response_error retry budget, gw_proc_connect_error / "
-         "check_enable / restart_dead_procs, trigger timeouts, fdevent register/sched_close/sched_run): for every "
-         "history of arrivals, socket events, client aborts, ticks and every scripted kernel answer, host/proc/"
-         "global load counters and cur_fds equal the number of contexts holding them, dispatch goes only to "
-         "RUNNING procs of hosts with active_procs > 0, a disabled proc stays out for its disable-time and is "
-         "re-enabled by the next trigger after it, retries are bounded and end in 5xx; model tied to the C by "
-         "differential event-history runs of the real gw_backend.c entry points under ASan/UBSan",
-    note="trusted: Lean kernel (+propext, Quot.sound, Classical.choice), hand-written model validated by the h_gw "
-         "correspondence (counters incl. the plugin_stats values mod_status prints, proc states, disabled_until, "
-         "per-request link/state/retry count/timestamps, host->hctxs order, which backend each connect() dialled, "
-         "cur_fds, real descriptor leak check) after every event; connect()/socket()/SO_ERROR/write callback/"
-         "create_env/http_response_read() answers are scripted inputs; local process death/respawn, adaptive "
-         "spawning, authorizer mode and request bodies are outside the model",
+         "gw_reconnect, gw_write_error / gw_recv_response_error, gw_proc_connect_error / check_enable / "
+         "restart_dead_procs, trigger timeouts, fdevent register/sched_close/sched_run). PROVED FOR EVERY "
+         "HISTORY of arrivals, socket events, client aborts, ticks and every scripted kernel answer, from every "
+         "pool: host->load / proc->load / gw.active-requests / cur_fds equal the number of request contexts "
+         "holding them, never negative, zero when idle, every socket opened is held or closed once; "
+         "active_procs = number of RUNNING procs; every connect() ever issued went to a proc that was RUNNING at "
+         "that moment; a disabled proc receives no connect() until its disable-time is over; a request makes at "
+         "most 1 + 5 connect() attempts however long the backends misbehave (for lighttpd with the repair of "
+         "the retry-counter reset). PROVED PER CALL (a decision on an arbitrary state, not a history): host "
+         "choice of each balance mode (only hosts with an active proc, none only if there is none; lc minimum, "
+         "rr next-in-cycle, hash maximum), a connect failure disables for disable-time, the trigger re-enables "
+         "after it, the retry decision of each failure path, giving up sets >= 500 (or create_env's 400), a "
+         "passed connect/read/write deadline makes the visit release socket and proc. PROVED ONLY UNDER A "
+         "HYPOTHESIS: the per-host / per-proc figures mod_status reports equal the in-flight counts if no two "
+         "hosts share a label (witness theorem: false for unlabeled hosts). TESTED ONLY (independent oracle on "
+         "the real gw_backend.c after every event): 5xx on every request finished without a response; no "
+         "request left waiting past a configured timeout after a tick; 503 / hostless retry only when the "
+         "oracle's own availability view has no live proc; connect-timeout takes the backend out of rotation; "
+         "balance choice recomputed; connect() calls recounted per request",
+    note="trusted: Lean kernel (+propext, Quot.sound, Classical.choice); hand-written model validated by the h_gw "
+         "correspondence after every event (struct counters, the plugin_stats entries looked up by the same "
+         "text key lighttpd uses, proc states, disabled_until, per-request link/state/retry count/timestamps/"
+         "number of connect() calls counted in the connect hook, host->hctxs order, which backend each connect() "
+         "dialled, cur_fds, real descriptor leak check); connect()/socket()/SO_ERROR/write callback/create_env/"
+         "http_response_read() answers are scripted inputs. NOT covered: liveness (that the trigger visits "
+         "every waiting request is not proved; timeouts configured 0 = off wait forever by design); 'retried on "
+         "another backend' holds for connect failures only (after accept-then-reset the same proc may be chosen "
+         "again); local process death/respawn, adaptive spawning, authorizer mode, request bodies, several "
+         "extensions/modules sharing labels, the e2e statistics-url / /proc/PID/fd observation",
     tech="Lean 4 proof over hand-written model + differential correspondence (in-process C harness driving the "
-         "real event handlers with a scripted kernel)",
+         "real event handlers with a scripted kernel) + independent property oracle on the implementation output",
     ref="6/C11")
 
 T0 = 1000
@@ -81,21 +97,35 @@ def base_hash(balance, key):
 # independent property oracle (does not use the model): the statement of C11
 # checked on what the implementation reported after every event
 # --------------------------------------------------------------------------
-def check_state(spec, hosts, slots, glob):
+def check_state(spec, hosts, slots, glob, anon=False, soft=None):
     nh = len(spec)
     if len(hosts) != nh:
         return "host count changed"
+    # hosts written without labels share every statistics key: what mod_status then prints
+    # is a different failure (of the naming scheme) than a lost increment, and is named so
+    shared = anon and nh > 1
     for h, (load, stat, active, q, procs) in enumerate(hosts):
         n = sum(1 for s in slots if s not in (None, "!") and s[0] == h)
-        if load != n or stat != n:
-            return "host %d: load=%d reported=%d but %d requests hold it" % (h, load, stat, n)
+        if load != n:
+            return "host %d: load=%d but %d requests hold it" % (h, load, n)
+        if stat != n:
+            if shared:
+                # reported last: any other failure in the same history goes first
+                soft.append("statistics label shared by unlabeled hosts: host %d reports load %d but %d requests hold it" % (h, stat, n))
+            else:
+                return "host %d: load=%d reported=%d but %d requests hold it" % (h, load, stat, n)
         run = sum(1 for p in procs if p[0] == "R")
         if active != run:
             return "host %d: active_procs=%d but %d procs RUNNING" % (h, active, run)
         for p, (st, pl, ps, du) in enumerate(procs):
             n = sum(1 for s in slots if s not in (None, "!") and s[0] == h and s[1] == p)
-            if pl != n or ps != n:
-                return "host %d proc %d: load=%d reported=%d but %d requests hold it" % (h, p, pl, ps, n)
+            if pl != n:
+                return "host %d proc %d: load=%d but %d requests hold it" % (h, p, pl, n)
+            if ps != n:
+                if shared:
+                    soft.append("statistics label shared by unlabeled hosts: host %d proc %d reports load %d but %d requests hold it" % (h, p, ps, n))
+                else:
+                    return "host %d proc %d: load=%d reported=%d but %d requests hold it" % (h, p, pl, ps, n)
         want = sorted(i for i, s in enumerate(slots) if s not in (None, "!") and s[0] == h and s[4] == 1)
         if sorted(q) != want:
             return "host %d: timeout list %s != requests with a socket %s" % (h, q, want)
@@ -130,6 +160,7 @@ class Avail:
         self.cur = {}             # slot -> [h, p, since, delayed]
         self.lost = set()         # procs disabled during the current event
         self.up0 = set()
+        self.ndial = {}           # slot -> connect() calls made for the request in it (own count)
 
     def begin(self):
         self.lost = set()
@@ -155,6 +186,7 @@ class Avail:
             del self.down[k]
 
     def dial(self, s, h, p, letter):
+        self.ndial[s] = self.ndial.get(s, 0) + 1
         unix = self.spec[h][5] == "u"
         if letter == "k":
             self.cur[s] = [h, p, self.now, False]
@@ -189,6 +221,7 @@ def oracle_full(line, out):
     if out in ("bad-op", "config-error"):
         return None
     balance, nslots = int(t[1]), int(t[3])
+    anon = bool((int(t[2]) >> 1) & 1)
     spec = []
     for hs in t[4].split("/"):
         f = hs.split(".")
@@ -204,6 +237,7 @@ def oracle_full(line, out):
     prev_glob = dict(G=0, F=0, L=-1, N=0, T=T0)
     prev_slots = [None] * nslots
     av = Avail(spec)
+    soft, late = [], None
     for i, op in enumerate(ops):
         st = steps[i]
         k = st.find("#")
@@ -212,9 +246,12 @@ def oracle_full(line, out):
         res = parse_results(st[:k])
         hosts, slots, glob = parse_dump(st[k + 1:])
         where = " (op %d %s)" % (i, op)
-        v = check_state(spec, hosts, slots, glob)
+        v = check_state(spec, hosts, slots, glob, anon, soft)
         if v:
             return v + where
+        if soft and not late:
+            late = soft[0] + where
+        del soft[:]
         now = glob["T"]
         kind = op[0]
         fld = op[1:].split(".")
@@ -274,6 +311,9 @@ def oracle_full(line, out):
                 av.trigger(int(fld[0]))
             elif r == "C":
                 av.cur.pop(opslot, None)
+                av.ndial.pop(opslot, None)
+            elif r[0] == "A" and r != "A-":
+                av.ndial[opslot] = 0
             elif r[0] == "E" and r[1:].isdigit():
                 if int(r[1:]) & 14:
                     av.so_error(opslot, (script_of(fld, "s") or "y")[0])
@@ -287,6 +327,8 @@ def oracle_full(line, out):
                         av.disable(h, p)
                 elif h >= 0 and p >= 0:
                     av.dial(opslot, h, p, letter)
+                    if av.ndial[opslot] > 6:
+                        return "request dispatched %d times (1 + at most 5 retries allowed)%s" % (av.ndial[opslot], where)
             elif r == "A-":
                 c = av.candidates()
                 if c:
@@ -298,9 +340,12 @@ def oracle_full(line, out):
                         if h >= 0 and p >= 0:
                             av.dial(sl, h, p, letter)
                     pend = []
+                    if av.ndial.get(sl, 0) > 6:
+                        return "request dispatched %d times (1 + at most 5 retries allowed)%s" % (av.ndial[sl], where)
                 body = r.split("=", 1)[1]
                 if body.startswith("fin"):
                     av.cur.pop(sl, None)
+                    av.ndial.pop(sl, None)
                     if body.endswith("h"):
                         c = av.candidates()
                         if c:
@@ -344,16 +389,8 @@ def oracle_full(line, out):
                         if h != want:
                             return "hash balance chose host %d, expected %d%s" % (h, want, where)
         # --- every request that ends without a response gets an error status
-        nk = 0
-        if len(fld) > 1:
-            for g in fld[-1].split(","):
-                if g.startswith("c="):
-                    nk = g.count("k")
-        nd = 0
         for r in res:
-            if r[0] == "D":
-                nd += 1
-            elif "=fin" in r:
+            if "=fin" in r:
                 body = r.split("=fin")[1]
                 code = int(body.rstrip("sth"))
                 if "s" in body:
@@ -365,11 +402,8 @@ def oracle_full(line, out):
                     return "request finished without backend response but status %d%s" % (code, where)
             elif r.endswith("=err"):
                 return "handler returned HANDLER_ERROR%s" % where
-        lim = 6 * (nk + 1) * (nslots if kind == "t" else 1)
-        if nd > lim:
-            return "%d connect() attempts in one event (bound %d)%s" % (nd, lim, where)
         prev_hosts, prev_slots, prev_glob = hosts, slots, glob
-    return None
+    return late
 
 
 _num = None
@@ -446,11 +480,12 @@ def rnd_script(rng, faulty=True):
     return ",".join(g)
 
 
-def rnd_hosts(rng):
+def rnd_hosts(rng, same_np=False):
     nh = rng.choice([1, 2, 2, 3, 3, 3, 4])
     hs = []
+    np0 = rng.choice([1, 1, 1, 2, 3])
     for _ in range(nh):
-        np_ = rng.choice([1, 1, 1, 2, 3])
+        np_ = np0 if same_np else rng.choice([1, 1, 1, 2, 3])
         dis = rng.choice([0, 1, 2, 2, 3, 5])
         ct = rng.choice([0, 1, 2, 3, 8])
         rt = rng.choice([0, 0, 2, 4])
@@ -502,18 +537,18 @@ def gen_random(rng, n, maxops, faulty=True):
     return out
 
 
-def gen_scenarios(rng, n):
+def gen_scenarios(rng, n, anon=False):
     """histories built from the fault vocabulary of the property statement:
     refuse, accept-then-close, hang, die, come back, client abort"""
     out = []
     for _ in range(n):
         nslots = rng.choice([3, 4, 6])
         bal = rng.randrange(4)
-        hosts = rnd_hosts(rng)
+        hosts = rnd_hosts(rng, anon)
         nh = hosts.count("/") + 1
         ops = []
         for _ in range(rng.randint(2, 7)):
-            sc = rng.randrange(9)
+            sc = rng.randrange(11)
             s = rng.randrange(nslots)
             key = rng.randrange(12)
             if sc == 0:    # refused by some backends, then accepted
@@ -541,10 +576,15 @@ def gen_scenarios(rng, n):
                 for j in range(nslots):
                     ops.append("a%d.%d.c=%s" % (j, rng.randrange(12), rng.choice(["k", "p", "rk", "rp", "rrrrrr"])))
                 ops += ["t1"] * rng.randint(0, 3)
+            elif sc == 9:  # backend accepts at once and resets before a byte is sent, again and again
+                n = rng.randint(3, 12)
+                ops.append("a%d.%d.c=%s,w=%s,r=%s" % (s, key, "k" * n, rng.choice("en") * n, "x" * n))
+                ops.append("e%d.1.r=%s,c=%s,w=%s" % (s, "x" * n, "k" * n, "n" * n))
             else:          # come back: wait out the disable time, then ask again
                 ops += ["t%d" % rng.choice([1, 2, 3, 6])] * rng.randint(1, 3)
                 ops.append("a%d.%d.c=k" % (s, key))
-        out.append("gw %d %d %d %s %s" % (bal, 1 if rng.random() < 0.1 else 0, nslots, hosts, " ".join(ops)))
+        out.append("gw %d %d %d %s %s" % (bal, (2 if anon else 0) + (1 if rng.random() < 0.1 else 0), nslots,
+                                         hosts, " ".join(ops)))
     return out
 
 
@@ -622,6 +662,14 @@ HAND = [
     "gw 1 0 2 1.1.1.0.0.r/1.1.1.0.0.r/1.1.1.0.0.r a0.0.c=rrr t1 a0.0.c=k t1 a1.0.c=k c0 c1",
     "gw 0 0 2 1.0.0.0.0.r a0.1.k=n a0.1.k=nnnnnnn a0.1.v=E a0.1.c=k,v=F a0.1.c=k,v=E,r=g a0.1.c=k,v=E,r=x",
     "gw 0 0 1 1.1.1.1.1.r zz a9.1 a0 e0 t",
+    # a backend that accepts and resets before a byte is sent, for as long as it is asked
+    "gw 0 0 1 1.1.0.0.0.u/1.1.0.0.0.u a0.1.c=kkkkkkkkkk,w=eeeeeeeeee,r=xxxxxxxxxx",
+    "gw 1 0 2 1.0.0.0.0.r a0.1.c=kkkkkkkkkkkk,w=nnnnnnnnnnnn e0.1.r=xxxxxxxxxxxx,c=kkkkkkkkkkkk,w=nnnnnnnnnnnn",
+]
+# hosts written without a label, "((...),(...))": every host's statistics key is the same
+HAND_ANON = [
+    "gw 0 2 2 1.1.0.0.0.r/1.1.0.0.0.r a0.1.c=k a1.2.c=k c0",
+    "gw 1 3 3 2.1.0.0.0.r/2.1.0.0.0.u/2.1.0.0.0.r a0.1.c=k a1.2.c=rk a2.3.c=p c1 t2 c0",
 ]
 
 
@@ -638,6 +686,7 @@ def run(ctx):
         ("gw(fault scenarios: refuse/close/hang/timeout/abort/return)", gen_scenarios(rng, 10000 if q else 100000)),
         ("gw(random histories, healthy backends)", gen_random(rng, 3000 if q else 30000, 30, False)),
         ("gw(random histories, scripted faults)", gen_random(rng, 12000 if q else 150000, 40, True)),
+        ("gw(unlabeled hosts sharing one statistics key)", HAND_ANON + gen_scenarios(rng, 1500 if q else 15000, True)),
     ]
     for name, lines in streams:
         for l in lines:
@@ -655,7 +704,8 @@ def run(ctx):
                      "pool shapes" % (2 if q else 3, len(ALPHA), len(SMALL_CFG)))
     ctx.rule = ("one case = a whole event history on a pool of 1-4 hosts x 1-3 procs with up to 6 concurrent "
                 "requests; after every event all counters, proc states, request links and the timeout lists of "
-                "the real gw_backend.c are compared with the Lean model and judged by the in-flight-count oracle; "
+                "the real gw_backend.c are compared with the Lean model and judged by the oracle (in-flight counts, "
+                "own availability view, own per-request connect() count, deadlines, balance choice); "
                 "distinct = (balance, worker mode, pool shape class, set of outcome kinds of the history)")
     ctx.assumptions += [
         "the kernel's answers (connect, socket, SO_ERROR, write) and http_response_read()'s verdicts are inputs "
